@@ -166,7 +166,7 @@ fn fresh_schema() -> String {
     let dir = verif_root().join("work").join("c14-schemas");
     std::fs::create_dir_all(&dir).ok();
     let n = SCHEMA_SEQ.fetch_add(1, Ordering::Relaxed);
-    let p = dir.join(format!("s-{}-{n}.json", std::process::id()));
+    let p = dir.join(format!("s-{:010}-{n:010}.json", std::process::id())); // fixed width: spans quoted in error texts must not depend on the counter
     std::fs::write(&p, r#"{"type":"object","properties":{"v":{"type":"string","format":"no-such-format"},"n":{"type":"integer"}},"required":["n"]}"#).expect("schema file");
     p.to_string_lossy().to_string()
 }
@@ -457,16 +457,31 @@ fn scenarios(threads: usize) -> Vec<Scenario> {
             });
         }
     }
-    // programs without any shared state: only the start points interleave
-    for t in [".a = 1; x = .a; .b = [x, 1]", "for_each([1, 2]) -> |_i, v| { .s = v }; del(.doc)", ".r = parse_json(string!(.doc)) ?? null"] {
+    // programs without any shared state: every block-expression boundary is a scheduling point, so the
+    // statements of the threads interleave in every possible way and must still give the solo results
+    for t in [
+        ".a = 1\nx = .a\n.b = [x, 1]",
+        "k = \"outer\"\nfor_each({\"p\": 1, \"q\": 2}) -> |k, v| { .seen = [k, v] }\n.k = k",
+        "x, err = to_int(.doc)\n.r = [x, err == null]\ndel(.flag)",
+        "x = join([\"a\", string!(.doc)], \"-\") ?? \"E\"\n.j = x",
+        ".a = 1; x = .a; .b = [x, 1]", "for_each([1, 2]) -> |_i, v| { .s = v }; del(.doc)", ".r = parse_json(string!(.doc)) ?? null"] {
         out.push(Scenario { name: "no-shared-state", template: Box::leak(t.to_string().into_boxed_str()), events: (0..threads).map(|i| ev(i % 2 == 0, good)).collect() });
     }
     out
 }
 
 fn part_c(rep: &mut Report, tier: Tier) {
-    let threads = if tier.thorough() { 3 } else { 2 };
-    let bound = if tier.thorough() { Some(3) } else { None };
+    // quick: 2 threads, at most 3 preemptions per schedule (CHESS: all 9 bugs it found needed <= 2);
+    // thorough: 3 threads with at most 3 preemptions, and 2 threads with every interleaving (unbounded)
+    if tier.thorough() {
+        part_c_run(rep, tier, 3, Some(3));
+        part_c_run(rep, tier, 2, None);
+    } else {
+        part_c_run(rep, tier, 2, Some(3));
+    }
+}
+
+fn part_c_run(rep: &mut Report, tier: Tier, threads: usize, bound: Option<u32>) {
     let mut total = sched::Stats::default();
     let mut configs: BTreeSet<String> = BTreeSet::new();
     let mut outcomes: BTreeSet<String> = BTreeSet::new();
@@ -545,8 +560,9 @@ fn part_c(rep: &mut Report, tier: Tier) {
         };
         // one call per thread: every interleaving (2 threads) / preemption bound 3 (3 threads);
         // two calls per thread: preemption bound 2 (CHESS: the bound, not the depth, is what is limited)
-        let scen_bound = if sc.name == "two-schema-calls" { Some(2) } else { bound };
-        bounds_used.insert(format!("{}: {}", sc.name, scen_bound.map_or("unbounded".to_string(), |b| format!("<= {b} preemptions"))));
+        let scen_bound = if sc.name == "two-schema-calls" { Some(2) } else if sc.name == "no-shared-state" { Some(if tier.thorough() { 3 } else { 2 }) } else { bound };
+        let _ = tier;
+        bounds_used.insert(format!("{threads} threads, {}: {}", sc.name, scen_bound.map_or("unbounded".to_string(), |b| format!("<= {b} preemptions"))));
         let (stats, capped) = sched::explore(&mut make, scen_bound, 400, 60_000, &mut on_exec);
         capped_any |= capped;
         total.executions += stats.executions;
@@ -597,17 +613,19 @@ fn part_c(rep: &mut Report, tier: Tier) {
         }
         rep.set("C_replay_of_one_schedule_twice_identical", a == b);
     }
-    rep.set("states", configs.len() as u64);
-    rep.set("transitions", total.scheduling_points);
-    rep.set("traces_validated_against_impl", total.executions);
-    rep.set("C_scenarios", scen_count);
-    rep.set("C_threads", threads as u64);
-    rep.set("C_schedules_explored", total.executions);
+    rep.add("states", configs.len() as u64);
+    rep.add("transitions", total.scheduling_points);
+    rep.add("traces_validated_against_impl", total.executions);
+    rep.add("C_scenarios", scen_count);
+    
+    rep.add("C_schedules_explored", total.executions);
     rep.set("C_longest_schedule", total.max_steps as u64);
-    rep.set("C_preemption_bounds", json!(bounds_used));
+    let mut all_bounds: Vec<J> = rep.coverage.get("C_preemption_bounds").and_then(J::as_array).cloned().unwrap_or_default();
+    all_bounds.extend(bounds_used.iter().map(|b| json!(b)));
+    rep.set("C_preemption_bounds", J::Array(all_bounds));
     rep.set("C_max_preemptions_in_a_schedule", u64::from(total.max_preemptions_used));
     rep.set("C_distinct_thread_outcomes", outcomes.len() as u64);
-    rep.set("C_deadlocks", total.deadlocks);
+    rep.add("C_deadlocks", total.deadlocks);
     rep.add("evaluations", total.executions);
     rep.add("distinct_nontrivial", total.executions);
     if capped_any {
